@@ -11,6 +11,31 @@ import time
 from . import runner
 
 
+def hang_fixture():
+    """The runner must turn a run that never returns into a VIOLATION naming that run, with a replay file that reproduces."""
+    import contextlib
+    import io
+    import re
+    buf = io.StringIO()
+    with contextlib.redirect_stdout(buf):
+        rc = runner.main_check("ZZ_HANG", ["--no-evidence", "--jobs", "3", "--tier", "quick"])
+    out = buf.getvalue()
+    m = re.search(r"VIOLATION property=ZZ_HANG replay=(\S+)", out)
+    ok = rc == 1 and "clause=ZZ_HANG.hang run_index=3 " in out and m is not None
+    if ok:
+        buf2 = io.StringIO()
+        with contextlib.redirect_stdout(buf2):
+            rc2 = runner.main_check("ZZ_HANG", ["--replay", m.group(1)])
+        ok = rc2 == 1
+        try:
+            os.remove(m.group(1))
+        except OSError:
+            pass
+    print("selftest hang fixture: a run that never returns is named and its replay reproduces" if ok
+          else f"selftest hang fixture: FAILED (rc={rc})\n{out[-1500:]}")
+    return 0 if ok else 1
+
+
 def main(argv):
     with open(os.path.join(runner.ROOT, "MANIFEST.json")) as f:
         ids = [c["property_id"] for c in json.load(f)["checks"]]
@@ -40,5 +65,6 @@ def main(argv):
             print(f"selftest {pid}: fresh-interpreter digest mismatch on indices {diff}")
             bad += len(diff)
         print(f"selftest {pid}: {len(idxs)} seeds x (2 in-process + 1 fresh interpreter) digests agree" if not diff else f"selftest {pid}: FAILED")
+    bad += hang_fixture()
     print(f"selftest done in {time.time()-t0:.1f}s, problems={bad}")
     return 0 if bad == 0 else 2
